@@ -9,7 +9,7 @@ from ..core import CaseStage, fresh_dir, h8, seed_slice
 from . import c07
 
 LEVEL = "exploration"
-RULE = ("full product vendor x class over 11x15 names (incl. names that look like Kconfig literals: digits, 0x.., y) (defaults of both SoCs, empty, one character, non-ASCII, 300 "
+RULE = ("full product vendor x class over 13x17 names (incl. control characters other than newline: VT, FF, FS/GS/RS, NEL, LS, PS) (incl. names that look like Kconfig literals: digits, 0x.., y) (defaults of both SoCs, empty, one character, non-ASCII, 300 "
         "characters, names differing only in case / trailing dot): (1) manifest vendor/class parameters and component ID "
         "from RFC4122_UUID name and namespace+name descriptions (library and YAML/JSON files), bytes located with the "
         "verifier's reader; (2) MPI record bytes 16..47 (library call, and for every pair the real CLI subprocess); (3) image boot with a build configuration giving the pair to each "
@@ -19,11 +19,12 @@ RULE = ("full product vendor x class over 11x15 names (incl. names that look lik
         "collision pattern: equal pairs must be rejected, a pair colliding with a default is served by the configured "
         "role), each probed with an envelope of every pool pair.")
 ASSUMPTIONS = ["svmc/refuuid.py (hashlib.sha1)", "svmc/refhex.py, svmc/refcbor.py", "names are representable in a quoted Kconfig string (no quote / newline)"]
-BOUNDS = {"quick": "165 name pairs x 3 derivation sites + the real CLI of mpi generate; 64 configurations x 4 probe envelopes; 6 malformed configurations",
+BOUNDS = {"quick": "221 name pairs x 3 derivation sites + the real CLI of mpi generate; 64 configurations x 4 probe envelopes; 6 malformed configurations",
           "thorough": "same (complete)"}
 
-VENDORS = ["nordicsemi.com", "", "a", "zażółć.example", "xY" * 150, "Nordicsemi.com", "nordicsemi.com.", "acme.example", "nordicsemi.com ", "2024", "y"]
-CLASSES = ["nRF54H20_sample_root", "nRF9280_sample_app", "", "b", "klasa_ąę€", "yZ" * 150, "nrf54h20_sample_root", "nRF54H20_sample_root.", "cls ", " cls", "0", "0x54", "y", "n", "007"]
+VENDORS = ["nordicsemi.com", "", "a", "zażółć.example", "xY" * 150, "Nordicsemi.com", "nordicsemi.com.", "acme.example", "nordicsemi.com ", "2024", "y",
+           "ven\x0bdor\x0c.example", "nel\x85ls\u2028ps\u2029.example"]
+CLASSES = ["nRF54H20_sample_root", "nRF9280_sample_app", "", "b", "klasa_ąę€", "yZ" * 150, "nrf54h20_sample_root", "nRF54H20_sample_root.", "cls ", " cls", "0", "0x54", "y", "n", "007", "cl\x1cas\x1ds\x1e", "tab\there"]
 CONFIGURABLE = ["APP_LOCAL_2", "APP_LOCAL_3", "RAD_LOCAL_2"]
 POOL = [("acme.example", "cls_a"), ("acme.example", "cls_b"), ("nordicsemi.com", "nRF54H20_sample_app"), ("Acme.example", "cls_a")]
 
@@ -107,9 +108,11 @@ def run_pair(case, agg):
             ep = os.path.join(d, "e.suit")
             open(ep, "wb").write(eb)
             for role in CONFIGURABLE + ["APP_ROOT"]:
-                kc = os.path.join(d, f"{role}.config")
+                kc = os.path.join(d, "sysbuild.config")      # ONE path, rewritten for every role (a regenerated build configuration)
                 with open(kc, "w", encoding="utf-8") as fh:
                     fh.write(f'SB_CONFIG_SUIT_MPI_{c07.kconfig_name(role)}_VENDOR_NAME="{v}"\nSB_CONFIG_SUIT_MPI_{c07.kconfig_name(role)}_CLASS_NAME="{c}"\n')
+                    fh.write(f'# SB_CONFIG_SUIT_MPI_{c07.kconfig_name(role)}_VENDOR_NAME="commented-out.example"\n'
+                             f'#SB_CONFIG_SUIT_MPI_{c07.kconfig_name(role)}_CLASS_NAME="commented_out"\n# CONFIG_OTHER is not set\n')
                 outd = os.path.join(d, f"out_{role}")
                 os.makedirs(outd)
                 cmd_image.ImageCreator.create_files_for_boot([ep], outd, 0x0E1ED000, kc, "nrf54h20")
